@@ -147,7 +147,7 @@ func rulesC03(c *Ctx) {
 			if !ok {
 				return false
 			}
-			if _, inSelect := ha.ParentOf(es).(*ast.CommClause); inSelect {
+			if cc, inSelect := ha.ParentOf(es).(*ast.CommClause); inSelect && cc.Comm == ast.Stmt(es) {
 				return false
 			}
 			return isRecvFrom(ha, es.X, func(e ast.Expr) bool {
